@@ -537,6 +537,10 @@ impl Scenario for AesSc {
                 e.content = Content::Rand { len: 120_000, seed: r.next_u64() };
             }
         }
+        if matches!(method, 8 | 12) && r.chance(1, 4) {
+            // ciphertext beyond the decoder's end-of-stream marker (and beyond its read-ahead window)
+            e.trailing_pad = r.pickc(&[1u32, 16, 300, 40_000, 70_000]);
+        }
         let pw = match r.below(4) {
             0 => vec![],
             1 => b"password".to_vec(),
